@@ -103,6 +103,9 @@ impl Recorder {
     pub fn len(&self) -> usize {
         self.0.lock().unwrap().evs.len()
     }
+    pub fn since(&self, mark: usize) -> Vec<(String, Ev)> {
+        self.0.lock().unwrap().evs[mark..].to_vec()
+    }
     fn push(&self, who: &str, full_only: bool, f: impl FnOnce() -> Ev) {
         let mut s = self.0.lock().unwrap();
         if s.on && (!full_only || s.full) {
